@@ -25,7 +25,8 @@ def run(ctx):
     by_sid = {s["sid"]: s for s in scns}
     mviol = [s for s in scns if s["mviol"]]
     acc = {"resumed12": 0, "resumed13": 0, "full": 0, "offered_ticket": 0, "second_name": 0, "late_clock": 0, "rotated_keys": 0,
-           "same_as_previous": 0, "no_ems_spec": 0, "hrr": 0, "doc_panic": 0}
+           "same_as_previous": 0, "no_ems_spec": 0, "hrr": 0, "doc_panic": 0,
+           "hrr_cookie_resumed": 0, "build_then_handshake_resumed": 0, "build_edit_handshake_resumed13": 0}
     keep = {}       # canary material: accepted connections (scenario, events, k) by kind
     samples = []
     def same(p, cd):
@@ -39,6 +40,9 @@ def run(ctx):
                 continue
             if ev["c_resumed"] and ev["s_resumed"]:
                 acc["resumed13" if ev["c_vers"] == 772 else "resumed12"] += 1
+                acc["hrr_cookie_resumed"] += cd["srv"]["cookie"] > 0 and len(ev["hellos"]) == 2
+                acc["build_then_handshake_resumed"] += cd["use"] == "build"
+                acc["build_edit_handshake_resumed13"] += cd["use"] == "edit" and ev["c_vers"] == 772
             elif ev["hs_ok"]:
                 acc["full"] += 1
             if ev["before"]["present"] and ev["hs_ok"]:
@@ -118,7 +122,7 @@ def run(ctx):
             sc.first_failure(row["ev"])),
             {"scenario": s, "why": why, "k": row["k"]})
     cov = {"evaluations": n, "distinct_nontrivial": len(scns),
-           "rule": "every history of 3 connections over one ClientSessionCache that Session_MC enumerates: parrots {ticket-only, PSK with/without OmitEmptyPsk, no session extension, TLS 1.2 EMS parrot, the same spec minus extended_master_secret, PSK without ticket extension, custom ticket-only without PreferSkip%s} x servers {TLS 1.2, TLS 1.3, TLS 1.3 + HelloRetryRequest} x ticket keys {1,2} x names {a,b} x clock {0, +8 days}; first connection name a/day 0/keys 1, third connection %s; each connection also runs against an empty cache (control); evaluations = connections judged, distinct = histories" % (
+           "rule": "every history of 3 connections over one ClientSessionCache that Session_MC enumerates: parrots {ticket-only, PSK with/without OmitEmptyPsk, no session extension, TLS 1.2 EMS parrot, the same spec minus extended_master_secret, PSK without ticket extension, custom ticket-only without PreferSkip%s} x servers {TLS 1.2, TLS 1.3, TLS 1.3 + HelloRetryRequest, + HRR cookie of 1 / 32 bytes} x client usage {Handshake, Build+Handshake, Build+SetClientRandom+Handshake} x ticket keys {1,2} x names {a,b} x clock {0, +8 days}; first connection name a/day 0/keys 1, third connection %s; each connection also runs against an empty cache (control); evaluations = connections judged, distinct = histories" % (
                ", more PSK/PQ/Firefox/360 parrots" if deep else "", "over the parrots/servers/names of the first two" if deep else "repeats the second or the first"),
            "accepted": acc, "model_level_counterexamples_as_coded": len(mviol), "canaries": [w for w, _, _ in canaries], "samples": samples, "exhaustive": True}
     return "model_checking", cov, ["Go tls.Server of the same repository acts as the compliant server",
